@@ -100,7 +100,10 @@ def coq_make(targets=(), timeout=3000, keep_going=False):
         eff = [l for l in proj if not l.strip().endswith(".v") or os.path.exists(os.path.join(COQDIR, l.strip()))]
         efftxt = "\n".join(eff) + "\n"
         effp = os.path.join(COQDIR, ".CoqProject.effective")
-        if not os.path.exists(os.path.join(COQDIR, "Makefile")) or not os.path.exists(effp) or open(effp).read() != efftxt:
+        confp = os.path.join(COQDIR, "Makefile.conf")
+        by_hand = not os.path.exists(confp) or ".CoqProject.effective" not in open(confp).read(400)
+        if (not os.path.exists(os.path.join(COQDIR, "Makefile")) or not os.path.exists(effp)
+                or open(effp).read() != efftxt or by_hand):
             open(effp, "w").write(efftxt)
             subprocess.run(["coq_makefile", "-f", ".CoqProject.effective", "-o", "Makefile"], cwd=COQDIR, check=True,
                            stdout=subprocess.DEVNULL)
